@@ -5,11 +5,16 @@ from harness import gen
 from harness.core import rs
 
 
-def gen_mn_case(rng, nmin=2, nmax=5, connected=True, dup=None, label_kind=None, name_kind=None, maxcard=3):
+def gen_mn_case(rng, nmin=2, nmax=5, connected=True, dup=None, label_kind=None, name_kind=None, maxcard=3, special=None):
+    """special='one': one variable has a single state; special='ten': one variable has 10-12 states"""
     n = rng.randint(nmin, nmax)
     names = gen.node_names(rng, n, name_kind or rng.choice(["str", "word", "int"]))
     card = [rng.choice([2, 2, 3][:maxcard]) if maxcard >= 2 else 2 for _ in range(n)]
     card = [min(c, maxcard) for c in card]
+    if special == "one":
+        card[rng.randrange(n)] = 1
+    elif special == "ten":
+        card[rng.randrange(n)] = rng.choice([10, 11, 12])
     labels = [gen.state_labels(rng, c, label_kind or rng.choice(["int", "str", "permint"])) for c in card]
     fs = []
     if connected:
